@@ -37,6 +37,12 @@ CHECKS = {
  "C10": ("exploration", "exhaustive bounded enumeration of change scenarios (shapes x destinations x quotes x amount placements) checked against the statement's post-conditions computed with a big-integer reference fee model",
          "Every scenario of the product space is run through Change/ChangeToAddress/ChangeToExistingOutput and the post-conditions (untouched outputs, no value creation, quoted fee <= fee left <= quoted fee + slack, unchanged only at/below dust) are evaluated on the result.",
          "Reference fee model internal/props/feeref.go (107-byte placeholder for unsigned P2PKH inputs).", "DESIGN.md §4 C10"),
+ "C12": ("model_checking", "explicit-state exploration of the funding loop through the real Tx.Fund: every supplier history up to depth 4/5 over a 13-answer alphabet, with a reference loop in lockstep inside the supplier",
+         "The supplier is the nondeterministic environment; every history (breadth-complete up to the depth bound) x 6 start transactions x 4 quotes is replayed against the implementation and every supplier call is compared with the reference deficit; final inputs/outputs/error are compared with the reference loop. States, transitions and traces are counted by the run.",
+         "Reference fee model internal/props/feeref.go; all traces are executed on the implementation (no separate model language).", "DESIGN.md §4 C12"),
+ "C04": ("exploration", "exhaustive enumeration of sign -> single-field mutation -> verify over keys, shapes, positions, 12 hash types and every mutation class, with the reference digest deciding what each hash type commits to",
+         "Each input is signed through the library's signing path and verified by the interpreter; every single-field mutation at every position is then applied and the input must verify iff the reference digest is unchanged.",
+         "Reference digests internal/ref/sighashref (anchored on the node vectors); ECDSA by go-bk.", "DESIGN.md §4 C04"),
 }
 
 PENDING_REASON = "check not built yet in this round (planned, see DESIGN.md §4); not claimed until its exhaustive check exists and is quiet on the unchanged tree"
